@@ -21,7 +21,7 @@ package ztest
 //@        bl[len(bl)-1].A == len(a) && bl[len(bl)-1].B == len(b) && bl[len(bl)-1].Size == 0 && 0 <= bl[0].A && 0 <= bl[0].B &&
 //@        forall(k, int, 0 <= k && k < len(bl)-1 ==> bl[k].Size > 0 && 0 <= bl[k].A && 0 <= bl[k].B && bl[k].A + bl[k].Size <= bl[k+1].A && bl[k].B + bl[k].Size <= bl[k+1].B &&
 //@               bl[k].A + bl[k].Size <= len(a) && bl[k].B + bl[k].Size <= len(b)) &&
-//@        forall(k, int, forall(t, int, 0 <= k && k < len(bl)-1 && 0 <= t && t < bl[k].Size ==> a[bl[k].A + t] == b[bl[k].B + t]))
+//@        forall(k, int, forall(x, int, 0 <= k && k < len(bl)-1 && bl[k].A <= x && x < bl[k].A + bl[k].Size ==> a[x] == b[x - bl[k].A + bl[k].B]))
 //@ func (sm *ztest.sequenceMatcher) matchingBlocks() (bl []match)
 //@   mathint
 //@   opt assumed = bounded
@@ -38,7 +38,7 @@ package ztest
 //@        forall(k, int, 0 <= k && k < len(c) ==> (c[k].Tag == 'e' || c[k].Tag == 'r' || c[k].Tag == 'd' || c[k].Tag == 'i') &&
 //@               (c[k].Tag == 'd' ==> c[k].J1 == c[k].J2) && (c[k].Tag == 'i' ==> c[k].I1 == c[k].I2) && (c[k].Tag == 'r' ==> c[k].I1 < c[k].I2 && c[k].J1 < c[k].J2) &&
 //@               (c[k].Tag == 'e' ==> c[k].I2 - c[k].I1 == c[k].J2 - c[k].J1)) &&
-//@        forall(k, int, forall(t, int, 0 <= k && k < len(c) && c[k].Tag == 'e' && 0 <= t && t < c[k].I2 - c[k].I1 ==> a[c[k].I1 + t] == b[c[k].J1 + t]))
+//@        forall(k, int, forall(x, int, 0 <= k && k < len(c) && c[k].Tag == 'e' && c[k].I1 <= x && x < c[k].I2 ==> a[x] == b[x - c[k].I1 + c[k].J1]))
 
 //@ func (sm *ztest.sequenceMatcher) GetOpCodes() (codes []opCode)
 //@   mathint
@@ -54,3 +54,69 @@ package ztest
 //@     invariant loopIdx == 0 ==> i == 0 && j == 0
 //@     invariant loopIdx > 0 ==> i == matching[loopIdx-1].A + matching[loopIdx-1].Size && j == matching[loopIdx-1].B + matching[loopIdx-1].Size
 //@     invariant TilesUpTo(sm.a, sm.b, opCodes, i, j)
+
+// GetGroupedOpCodes: every group is a non-empty run of well-formed steps that
+// follow each other without a gap, equal ranges really are equal, and a group
+// starts and ends with at most n unchanged lines (3 for a negative n).
+// A []string of more than 2^59 elements cannot exist (16 bytes each); context
+// sizes beyond 2^32 are outside the claim (i1+n must not overflow).
+//@ pred StepsOK(a []string, b []string, g []opCode) :=
+//@        forall(k, int, 0 <= k && k < len(g)-1 ==> g[k].I2 == g[k+1].I1 && g[k].J2 == g[k+1].J1) &&
+//@        forall(k, int, 0 <= k && k < len(g) ==> 0 <= g[k].I1 && 0 <= g[k].J1 && g[k].I1 <= g[k].I2 && g[k].J1 <= g[k].J2 &&
+//@               (g[k].Tag == 'e' || g[k].Tag == 'r' || g[k].Tag == 'd' || g[k].Tag == 'i') &&
+//@               (g[k].Tag == 'd' ==> g[k].J1 == g[k].J2) && (g[k].Tag == 'i' ==> g[k].I1 == g[k].I2) &&
+//@               (g[k].Tag == 'e' ==> g[k].I2 - g[k].I1 == g[k].J2 - g[k].J1))
+//@ pred EqualIn(a []string, b []string, g []opCode) :=
+//@        forall(k, int, 0 <= k && k < len(g) && g[k].Tag == 'e' ==> g[k].I2 <= len(a) && g[k].J2 <= len(b))
+//@ pred EqualSame(a []string, b []string, g []opCode) :=
+//@        forall(k, int, forall(x, int, 0 <= k && k < len(g) && g[k].Tag == 'e' && g[k].I1 <= x && x < g[k].I2 ==> a[x] == b[x - g[k].I1 + g[k].J1]))
+//@ pred EndsOK(g []opCode, n int) := len(g) > 0 &&
+//@        (g[0].Tag == 'e' ==> g[0].I2 - g[0].I1 <= n) && (g[len(g)-1].Tag == 'e' ==> g[len(g)-1].I2 - g[len(g)-1].I1 <= n)
+// What lies between two steps e (earlier) and f (later) is the same in both texts.
+//@ pred GapSame(a []string, b []string, eI2 int, eJ2 int, fI1 int, fJ1 int) := eI2 <= fI1 && eJ2 <= fJ1 && fI1 - eI2 == fJ1 - eJ2 &&
+//@        forall(x, int, eI2 <= x && x < fI1 ==> a[x] == b[x - eI2 + eJ2])
+//@ func (sm *ztest.sequenceMatcher) GetGroupedOpCodes(n int) (groups [][]opCode)
+//@   mathint
+//@   local codes []opCode
+//@   local group []opCode
+//@   let ctx = ite(old(n) < 0, 3, old(n))
+//@   let nonEmpty = len(old(sm.a)) > 0 || len(old(sm.b)) > 0
+//@   requires 0 <= len(sm.a) && len(sm.a) <= 576460752303423488 && 0 <= len(sm.b) && len(sm.b) <= 576460752303423488
+//@   requires n <= 4294967296
+//@   ensures forall(q, int, 0 <= q && q < len(groups) ==> len(groups[q]) > 0)                    [C20] "no hunk is empty"
+//@   ensures forall(q, int, 0 <= q && q < len(groups) ==> StepsOK(sm.a, sm.b, groups[q]))        [C20] "within a hunk the steps are well formed and follow each other without a gap"
+//@   ensures nonEmpty ==> forall(q, int, 0 <= q && q < len(groups) ==> EqualIn(sm.a, sm.b, groups[q]))   [C20] "ranges a hunk presents as unchanged lie inside both texts"
+//@   ensures nonEmpty ==> forall(q, int, 0 <= q && q < len(groups) ==> EqualSame(sm.a, sm.b, groups[q]))   [C20] "lines a hunk presents as unchanged are equal in both texts"
+//@   ensures forall(q, int, 0 <= q && q < len(groups) ==> EndsOK(groups[q], ctx))                [C20] "a hunk starts and ends with at most n unchanged lines"
+//@   ensures forall(q, int, 0 <= q && q < len(groups)-1 ==> groups[q][len(groups[q])-1].I2 <= groups[q+1][0].I1 && groups[q][len(groups[q])-1].J2 <= groups[q+1][0].J1)   [C20] "hunks appear in order and do not overlap"
+//@   ensures nonEmpty ==> forall(q, int, 0 <= q && q < len(groups)-1 ==> GapSame(sm.a, sm.b, groups[q][len(groups[q])-1].I2, groups[q][len(groups[q])-1].J2, groups[q+1][0].I1, groups[q+1][0].J1))   [C20] "what lies between two hunks is the same in both texts"
+//@   ensures nonEmpty && len(groups) > 0 ==> GapSame(sm.a, sm.b, 0, 0, groups[0][0].I1, groups[0][0].J1)     [C20] "what precedes the first hunk is the same in both texts"
+//@   ensures nonEmpty && len(groups) > 0 ==> GapSame(sm.a, sm.b, groups[len(groups)-1][len(groups[len(groups)-1])-1].I2, groups[len(groups)-1][len(groups[len(groups)-1])-1].J2, len(sm.a), len(sm.b))     [C20] "what follows the last hunk is the same in both texts"
+//@   ensures nonEmpty && len(groups) == 0 ==> GapSame(sm.a, sm.b, 0, 0, len(sm.a), len(sm.b))              [C20] "no hunk at all means the texts are equal"
+//@   ensures forall(q, int, 0 <= q && q < len(groups) ==> !(len(groups[q]) == 1 && groups[q][0].Tag == 'e'))     [C20] "no hunk consists of a single unchanged range"
+//@   ensures !nonEmpty ==> len(groups) == 0                                                      [C20] "two empty texts give no hunk"
+//@   ensures sm.a == old(sm.a) && sm.b == old(sm.b)
+//@   loop 1 "for _, c := range codes"
+//@     invariant sm.a == old(sm.a) && sm.b == old(sm.b)
+//@     invariant 0 <= loopIdx && loopIdx <= len(codes) && len(codes) > 0 && len(group) >= 0 && len(groups) >= 0
+//@     invariant StepsOK(sm.a, sm.b, codes) && (nonEmpty ==> EqualIn(sm.a, sm.b, codes)) && (nonEmpty ==> EqualSame(sm.a, sm.b, codes))
+//@     invariant !nonEmpty ==> len(codes) == 1 && codes[0].Tag == 'e' && len(groups) == 0
+//@     invariant codes[0].Tag == 'e' ==> codes[0].I2 - codes[0].I1 <= n
+//@     invariant codes[len(codes)-1].Tag == 'e' ==> codes[len(codes)-1].I2 - codes[len(codes)-1].I1 <= n
+//@     invariant forall(q, int, 0 <= q && q < len(groups) ==> len(groups[q]) > 0 && StepsOK(sm.a, sm.b, groups[q]) && EndsOK(groups[q], n))
+//@     invariant nonEmpty ==> forall(q, int, 0 <= q && q < len(groups) ==> EqualIn(sm.a, sm.b, groups[q]))
+//@     invariant nonEmpty ==> forall(q, int, 0 <= q && q < len(groups) ==> EqualSame(sm.a, sm.b, groups[q]))
+//@     invariant StepsOK(sm.a, sm.b, group) && (nonEmpty ==> EqualIn(sm.a, sm.b, group)) && (nonEmpty ==> EqualSame(sm.a, sm.b, group))
+//@     invariant loopIdx == 0 ==> len(group) == 0
+//@     invariant loopIdx > 0 ==> len(group) > 0 && group[len(group)-1].Tag == codes[loopIdx-1].Tag && group[len(group)-1].I2 == codes[loopIdx-1].I2 && group[len(group)-1].J2 == codes[loopIdx-1].J2 && group[len(group)-1].I1 >= codes[loopIdx-1].I1
+//@     invariant len(group) > 0 && group[0].Tag == 'e' ==> group[0].I2 - group[0].I1 <= n
+//@     invariant !nonEmpty && loopIdx > 0 ==> len(group) == 1
+//@     invariant forall(q, int, 0 <= q && q < len(groups)-1 ==> groups[q][len(groups[q])-1].I2 <= groups[q+1][0].I1 && groups[q][len(groups[q])-1].J2 <= groups[q+1][0].J1)
+//@     invariant nonEmpty ==> forall(q, int, 0 <= q && q < len(groups)-1 ==> GapSame(sm.a, sm.b, groups[q][len(groups[q])-1].I2, groups[q][len(groups[q])-1].J2, groups[q+1][0].I1, groups[q+1][0].J1))
+//@     invariant nonEmpty && len(groups) > 0 && len(group) > 0 ==> GapSame(sm.a, sm.b, groups[len(groups)-1][len(groups[len(groups)-1])-1].I2, groups[len(groups)-1][len(groups[len(groups)-1])-1].J2, group[0].I1, group[0].J1)
+//@     invariant len(groups) > 0 ==> loopIdx > 0 && groups[0][0].I1 == codes[0].I1 && groups[0][0].J1 == codes[0].J1
+//@     invariant len(groups) == 0 && len(group) > 0 ==> group[0].I1 == codes[0].I1 && group[0].J1 == codes[0].J1
+//@     invariant len(groups) == 0 ==> len(group) == loopIdx
+//@     invariant nonEmpty ==> GapSame(sm.a, sm.b, 0, 0, codes[0].I1, codes[0].J1)
+//@     invariant nonEmpty ==> GapSame(sm.a, sm.b, codes[len(codes)-1].I2, codes[len(codes)-1].J2, len(sm.a), len(sm.b))
+//@     invariant forall(q, int, 0 <= q && q < len(groups) ==> !(len(groups[q]) == 1 && groups[q][0].Tag == 'e'))
